@@ -191,7 +191,8 @@ func (rd *redisDict) get(key string) (value any, exists bool) {
 }
 
 func (rd *redisDict) pickRandomItems(count, sparseThreshold int) (items []*redisDictItem) {
-	items = make([]*redisDictItem, 0, count)
+	// capacity hint only; count comes from the client and may be huge
+	items = make([]*redisDictItem, 0, min(count, len(rd.buckets)))
 
 	// Algorithm that is expensive when sparseness is high; we rely on
 	// the hash function to reduce that possibility.
